@@ -961,7 +961,7 @@ func c10DialSrv(sp *quic.QUICSpec, conf *quic.Config, srvConf *quic.Config, blac
 // inputs cannot be read off the wire for are skipped (false).
 func c10WireFlightCase(w *bufio.Writer, sp *quic.QUICSpec, e *c10Expect, dgs [][]byte, pkts []*c10Pkt) bool {
 	ips := &sp.InitialPacketSpec
-	if len(pkts) == 0 || len(pkts) != len(dgs) || len(dgs) >= 10 {
+	if len(pkts) == 0 || len(pkts) != len(dgs) {
 		return false
 	}
 	bk := ""
